@@ -64,11 +64,88 @@ func findTokenMap(w *World, mustHaveKey int64) *tokenMap {
 	tp := w.Pkg("internal/tree")
 	info := tp.TypesInfo
 	var best *tokenMap
+	type root struct {
+		f    *Func
+		node ast.Node
+		obj  types.Object // package-level variable holding the literal (nil: literal inside f)
+	}
+	var roots []root
 	for _, f := range w.FuncsIn(tp) {
 		if f.Body == nil || f.Lit != nil {
 			continue
 		}
-		ast.Inspect(f.Body, func(n ast.Node) bool {
+		roots = append(roots, root{f: f, node: f.Body})
+	}
+	// a table kept in a package-level variable: it counts if exactly one function reads it and nothing can write it
+	for _, file := range tp.Syntax {
+		for _, d := range file.Decls {
+			gd, ok := d.(*ast.GenDecl)
+			if !ok || gd.Tok != token.VAR {
+				continue
+			}
+			for _, sp := range gd.Specs {
+				vs := sp.(*ast.ValueSpec)
+				if len(vs.Names) != 1 || len(vs.Values) != 1 {
+					continue
+				}
+				obj := info.Defs[vs.Names[0]]
+				if obj == nil {
+					continue
+				}
+				var reader *Func
+				readers, bad := 0, false
+				for _, f := range w.FuncsIn(tp) {
+					if f.Body == nil {
+						continue
+					}
+					reads := false
+					ast.Inspect(f.Body, func(n ast.Node) bool {
+						id, ok := n.(*ast.Ident)
+						if !ok || info.Uses[id] != obj {
+							return true
+						}
+						// the only permitted use: X[k] read as a value
+						ix, isIx := w.parent[id].(*ast.IndexExpr)
+						if !isIx || ix.X != ast.Expr(id) {
+							bad = true
+							return true
+						}
+						switch p := w.parent[ix].(type) {
+						case *ast.AssignStmt:
+							for _, l := range p.Lhs {
+								if l == ast.Expr(ix) {
+									bad = true
+								}
+							}
+						case *ast.IncDecStmt:
+							bad = true
+						case *ast.UnaryExpr:
+							if p.Op == token.AND {
+								bad = true
+							}
+						}
+						reads = true
+						return true
+					})
+					if reads && f.Lit == nil {
+						readers++
+						reader = f
+					} else if reads {
+						bad = true
+					}
+				}
+				if ast.IsExported(vs.Names[0].Name) {
+					bad = true // other packages could write it
+				}
+				if readers == 1 && !bad {
+					roots = append(roots, root{f: reader, node: vs.Values[0], obj: obj})
+				}
+			}
+		}
+	}
+	for _, rt := range roots {
+		f := rt.f
+		ast.Inspect(rt.node, func(n ast.Node) bool {
 			cl, ok := n.(*ast.CompositeLit)
 			if !ok {
 				return true
